@@ -22,7 +22,8 @@ SPEC = {
         'truncated_rejected_smodel', 'truncated_rejected_mpol', 'truncated_rejected_ppol', 'truncated_rejected_pd', 'truncated_rejected_ps',
         # a junk token (abc, nan, inf ...) in place of any token of a written object: the load fails, for every kind
         'tri_rdDExp', 'tri_rdSExp', 'tri_rdDModel', 'tri_rdSModel', 'tri_rdPD', 'tri_rdPS', 'tri_rdMPol', 'tri_polLoop', 'tri_rdPPol',
-        'junk_token_fails', 'corrupted_load_rejected', 'corrupted_rejected_ppol', 'corrupted_rejected_dmodel', 'corrupted_rejected_sexp',
+        'junk_token_fails', 'corrupted_load_rejected', 'corrupted_rejected_ppol', 'corrupted_rejected_dmodel', 'corrupted_rejected_sexp', 'corrupted_rejected_dexp',
+        'corrupted_rejected_smodel', 'corrupted_rejected_mpol', 'corrupted_rejected_pd', 'corrupted_rejected_ps',
         # bytes <-> tokens: any white-space layout tokenizes back to the token list; byte-level round trip
         'tokenize_render', 'roundtrip_bytes', 'printN_clean', 'wrDModel_clean', 'wrPPol_clean', 'truncated_bytes_rejected', 'gText_clean', 'printDQ_clean', 'ratIO_printClean',
         # the fuel of the policy loop is immaterial (the model is the unbounded while(true))
